@@ -44,7 +44,7 @@ def wf_common(I, T):
 
 
 def bound_ok_num(I, t):
-    return z3.Or(t == I.U.NONE, z3.And(I.U.isnum(t), vm.kind(t) != vm.NAN))
+    return z3.Or(t == I.U.NONE, z3.And(I.U.isnum(t), vm.kind(t) != vm.NAN, vm.ty(t) != vm.TAG["Decimal"]))
 
 
 def wf_bounds(I, b, okfn):
@@ -75,9 +75,13 @@ def d_lt(a, b):
 
 
 def is_number(I, t):
-    """`numeric type` of the statement: numbers.Number instances (the duck-typed extension of
-    _utils._is_number — objects with __int__ and __add__ — is outside the value model)."""
-    return I.U.isnum(t)
+    """`numeric type` of the statement: numbers.Number instances, or objects that behave like
+    numbers (have __int__ and __add__, or gmpy's qdiv) — the documented meaning of
+    `_utils._is_number`; on every builtin type this is decided by the hasattr axioms."""
+    from pyvc.builtins_lib import add_hasattr_axioms, hasattr_fn
+    for nm in ("__int__", "__add__", "qdiv"):
+        add_hasattr_axioms(I, t, nm)
+    return z3.Or(I.U.isnum(t), z3.And(hasattr_fn("__int__")(t), hasattr_fn("__add__")(t)), hasattr_fn("qdiv")(t))
 
 
 # ------------------------------------------------------------------- contract factory ----
@@ -128,7 +132,52 @@ def validate_contract(cls, module, slots, wf, valid, scope=None, loops=None, fra
     meth = "_validate"
     found_mod = module
     return FunctionContract("%s:%s.%s" % (found_mod, cls, meth), PROP, setup, post, loops=loops or {},
-                            concretise=None, name=name or "%s._validate" % cls)
+                            concretise=make_concretiser(cls, valid), name=name or "%s._validate" % cls)
+
+
+CTOR = {"ClassSelector": "param.ClassSelector(class_=object)", "Dict": "param.Dict()"}
+
+
+def make_concretiser(cls, valid):
+    """Replay script for a refuted validator obligation: build the parameter with the slot
+    values of the counter-model, call the real `_validate`, compare accept/reject with the spec
+    verdict evaluated in the model."""
+    from pyvc import concretise as cz
+
+    def concretise(model, info, name, I, q):
+        T, v = info["T"], info["val"]
+        U = I.U
+        slots = {k: cz.py_expr(model, t, U=U) for k, t in T.items() if k not in info.get("heap", {})}
+        for k, r in info.get("heap", {}).items():
+            items = cz.seq_items(model, info["seq0:" + k])
+            slots[k] = "[" + ", ".join(cz.py_expr(model, it, U=U) for it in items) + "]"
+        vexpr = cz.py_expr(model, v, U=U)
+        ok = z3.is_true(cz.ev(model, valid(I, T, v, info)))
+        expected = "accept" if ok else "reject"
+        got = "accept" if "return]" in name else "reject"
+        if "raises-only" in name:
+            expected = "reject-with-ValueError/TypeError"
+        witness = "type=%s got=%s expected=%s val=%s cfg=%s" % (
+            cls, got, expected, vexpr, ",".join("%s=%s" % kv for kv in sorted(slots.items())))
+        lines = [cz.PRELUDE, "# obligation: %s" % name, "# witness   : %s" % witness,
+                 "p = %s" % CTOR.get(cls, "param.%s()" % cls)]
+        for k, e in sorted(slots.items()):
+            lines.append("p.%s = %s" % (k, e))
+        lines += ["val = %s" % vexpr,
+                  "try:",
+                  "    p._validate(val); got = 'accept'",
+                  "except (ValueError, TypeError) as e:",
+                  "    got = 'reject'; print('raised', type(e).__name__, e)",
+                  "except Exception as e:",
+                  "    got = 'raise:' + type(e).__name__; print('raised', type(e).__name__, e)",
+                  "expected = %r" % expected,
+                  "print('%s(' + ', '.join('%%s=%%r' %% (k, getattr(p, k)) for k in %r) + ')._validate(%%r) ->' %% (val,), got, '; statement demands', expected)" % (cls, sorted(slots)),
+                  "bad = (got.startswith('raise:')) if expected.startswith('reject-with') else (got != expected)",
+                  "if bad:",
+                  "    print('REPRODUCED: C01 %s' % expected); sys.exit(1)",
+                  "print('NOT-REPRODUCED'); sys.exit(0)"]
+        return {"script": "\n".join(lines) + "\n", "witness": witness}
+    return concretise
 
 
 # ------------------------------------------------------------------------ Number family ----
@@ -280,6 +329,12 @@ def scope_same_type_pair(I, T, v):
                        vm.ty(a) == vm.ty(b))]
 
 
+def scope_no_datetime(I, T, v):
+    # whether a datetime is a "date type" for CalendarDateRange is not settled by the statement
+    # (CalendarDate excludes it, this class's isinstance test admits it): not claimed
+    return [vm.ty(S.elem(I, v, 0)) != vm.TAG["datetime"], vm.ty(S.elem(I, v, 1)) != vm.TAG["datetime"]]
+
+
 def valid_daterange(I, T, v, info):
     a, b = S.elem(I, v, 0), S.elem(I, v, 1)
     inb = z3.And(inside(I, T["bounds"], T["inclusive_bounds"], a, d_le, d_lt),
@@ -373,7 +428,7 @@ def listselector_contract():
         info = {"self": self, "T": T, "val": val.t, "heap": {"_objects": fields["_objects"]},
                 "symbols": {"val": val.t}, "seq0:_objects": st.heap[fields["_objects"].oid].seq}
         S.fold(I, "all_in_objects", elem_ok_listsel(I, T, info))
-        st.pc += wf_common(I, T) + [T["check_on_set"] == I.U.TRUE]
+        st.pc += wf_common(I, T) + [T["check_on_set"] == I.U.TRUE, z3.Not(I.U.has_type(val.t, ["ListProxy", "OrderedDict"]))]
         return S.method(I, cls, "_validate", self), [val], {}, info
 
     def post(I, info, st, oc):
@@ -447,7 +502,7 @@ def list_contract(cls, hook=False):
         S.fold(I, "all_item_type", item_ok(I, T))
         if hook:
             S.fold(I, "all_callable", lambda x: vm.is_callable(x))
-        st.pc += wf_common(I, T) + wf_list(I, T)
+        st.pc += wf_common(I, T) + wf_list(I, T) + [z3.Not(I.U.has_type(val.t, ["ListProxy", "OrderedDict"]))]
         return S.method(I, cls, "_validate", self), [val], {}, info
 
     def post(I, info, st, oc):
@@ -562,7 +617,7 @@ def contracts():
     C[-1].qual = "%s:Range._validate" % MOD_P
     C.append(vc("CalendarDateRange", MOD_P, RANGE_SLOTS, wf_caldaterange, valid_caldaterange,
                 loops={("CalendarDateRange._validate_value", "val"): LoopSpec("val", inv=lambda I, st, pre: pre.all(allcaldate(I)), name="all-dates")},
-                scope=lambda I, T, v: caldaterange_axioms(I, T, v) + scope_same_type_pair(I, T, v)))
+                scope=lambda I, T, v: caldaterange_axioms(I, T, v) + scope_same_type_pair(I, T, v) + scope_no_datetime(I, T, v)))
     C[-1].qual = "%s:Range._validate" % MOD_P
     for cls in ("Callable", "Action"):
         C.append(vc(cls, MOD_P, ["allow_None"], nothing, valid_callable))
